@@ -1665,7 +1665,7 @@ class _TotalJacInfo(object):
                             ln_solver = model._linear_solver
                             with model._scaled_context_all():
                                 model._linearize(sub_do_ln=ln_solver._linearize_children())
-                            ln_solver._linearize()
+                                ln_solver._linearize()
                         finally:
                             model._tot_jac = None
 
